@@ -219,7 +219,7 @@ def analyse(text, label):
         if rd["tczero"]:
             fail(k, "dispatch_block_testcancel returned 0 after a dispatch_block_cancel had returned", "testcancel-lost2")
         nb = len(body_begin)
-        if rd["kind"] in (0, 1, 3):
+        if rd["kind"] in (0, 1, 3, 4):
             if rd["performed"] != rd["inv"] and rd["expect_done"]:
                 fail(k, "%d invocations but dbpd_performed = %d" % (rd["inv"], rd["performed"]), "performed-count")
             if nb > rd["inv"]:
@@ -267,9 +267,44 @@ def conformance(name, alltr):
     return conc.coq_conform(name, IMPORTS, "conform", [(sv, t) for (sv, t, _, _, _) in alltr], chunk=300)
 
 
+# transitions of Block.tstep as (pc_tag p) * 100 + (pc_tag p'), read off the definition of tstep (Block.pc_tag)
+TAGS = {0: "PIdle", 1: "PCrash", 2: "PRet", 3: "PSubmit", 4: "PSubmitCas", 5: "PSubmitRel", 6: "PInvRead", 7: "PSetThread",
+        8: "PBodyNext", 9: "PInBody", 10: "PInc", 11: "PLeave", 12: "PPost", 13: "PPost(in leave)", 14: "PRel", 15: "PCancel",
+        16: "PTestRead", 17: "PWaitOr", 18: "PWaitXchg", 19: "PWaitWake", 20: "PWaitThread", 21: "PWaitPerf", 22: "PWaitG",
+        23: "PWaitOut0", 24: "PWaitOut1", 25: "PNotifyPerf", 26: "PNotifyG"}
+MODEL_TRANSITIONS = {
+    (0, 6), (0, 3), (0, 15), (0, 16), (0, 17), (0, 25), (0, 10), (0, 12), (0, 8), (2, 0), (3, 4), (4, 6), (4, 2), (4, 5),
+    (5, 6), (5, 2), (6, 10), (6, 12), (6, 7), (6, 8), (7, 8), (8, 9), (9, 10), (9, 12), (10, 11), (10, 12), (11, 13),
+    (12, 0), (12, 2), (12, 14), (13, 13), (13, 0), (13, 2), (13, 14), (14, 0), (14, 2), (15, 2), (16, 2), (17, 18),
+    (18, 20), (18, 19), (19, 20), (20, 21), (21, 22), (22, 22), (22, 23), (22, 24), (23, 2), (24, 2), (25, 26), (26, 26),
+    (26, 2)}
+# an async invocation of a DBF_PERFORM record that reads DBF_CANCELED: the model allows it (most general client), the
+# library never builds such an object (dispatch_block_perform's record lives on its stack and is invoked directly)
+UNREACHABLE_TRANSITIONS = {(0, 12)}
+# transitions into DISPATCH_CLIENT_CRASH: a run that must survive to dump its trace cannot take them
+CRASH_TRANSITIONS = {(0, 1), (6, 1), (11, 1), (17, 1), (21, 1), (25, 1)}
+
+
 def coverage(name, alltr):
-    """which model branches (pc tag, event kind, outcome tag) the accepted traces exercised: evaluated by the model itself"""
-    return {}
+    """which transitions of Block.tstep (latent steps included) the accepted traces exercised: evaluated by the model itself
+    (Block.conform_cov) on one representative trace per distinct shape"""
+    reps = {}
+    for x in alltr:
+        reps.setdefault(shape(x[1]), x)
+    traces = [(sv, t) for (sv, t, _, _, _) in reps.values()]
+    seen = set()
+    for c0 in range(0, len(traces), 300):
+        part = traces[c0:c0 + 300]
+        body = ["Definition traces : list (Z * list event) := ["]
+        body.append(";\n".join("(%d, [%s])" % (sv, "; ".join(e.coq() for e in tr)) for sv, tr in part))
+        body.append("].")
+        body.append("Eval vm_compute in nodup Z.eq_dec (flat_map (fun '(sv, tr) => conform_cov sv tr) traces).")
+        ok, vals, raw = driver.coq_eval("%s_%d" % (name, c0), IMPORTS, "\n".join(body) + "\n", timeout=900)
+        if not ok or len(vals) != 1:
+            raise RuntimeError("coq coverage evaluation failed: " + raw[-2000:])
+        for c in driver.ints(vals[0]):
+            seen.add((c // 100, c % 100))
+    return seen
 
 
 def shape(t):
@@ -299,21 +334,37 @@ def correspond(ctx):
                           "label": label, "rounds": rounds, "permille": permille})
             continue
         f, tr, st, _ = analyse(text, label)
+        for x in f:
+            x["rounds"], x["permille"] = rounds, permille
         fails += f
-        alltr += [(sv, t, rd, thr, seed) for (sv, t, rd, thr) in tr]
+        alltr += [(sv, t, rd, thr, seed, permille) for (sv, t, rd, thr) in tr]
         for k, v in st.items():
             total[k] = total.get(k, 0) + v
+    perm_of = {(x[4]): x[5] for x in alltr}
+    alltr = [x[:5] for x in alltr]
     res = conformance("c19_conf", alltr) if alltr else []
     for (i, idle), (sv, t, rd, thr, seed) in zip(res, alltr):
         if i != -1 or idle != 1:
             mism.append({"what": "a recorded thread trace of the library is not accepted by the model's thread automaton "
                          "(Block.tstep with latent steps): the implementation took a step the model does not have",
-                         "detail": {"seed": seed, "round": rd, "thread": thr, "self": sv, "rejected_at": i,
+                         "detail": {"seed": seed, "rounds": rounds, "permille": perm_of.get(seed), "round": rd, "thread": thr,
+                                    "self": sv, "rejected_at": i,
                                     "ended_idle": idle, "trace": [e.brief() for e in t][:60]}})
-    # branch coverage of the thread automaton over the accepted traces
+    # coverage: transitions of the thread automaton taken by accepted traces (computed by the model), and the
+    # API-level branches seen by the Python mirror
+    if alltr and not mism:
+        seen = coverage("c19_cov", alltr)
+        reach_tr = MODEL_TRANSITIONS - UNREACHABLE_TRANSITIONS
+        total["model_transitions_covered"] = "%d/%d" % (len(seen & reach_tr), len(reach_tr))
+        total["model_transitions_uncovered"] = ["%s->%s" % (TAGS[a], TAGS[b]) for (a, b) in sorted(reach_tr - seen)]
+        total["model_transitions_unreachable_through_the_api"] = ["%s->%s (async invocation of a cancelled DBF_PERFORM record)"
+                                                                  % (TAGS[a], TAGS[b]) for (a, b) in sorted(UNREACHABLE_TRANSITIONS)]
+        total["model_transitions_unexpected"] = ["%s->%s" % (TAGS.get(a, a), TAGS.get(b, b))
+                                                 for (a, b) in sorted(seen - MODEL_TRANSITIONS - CRASH_TRANSITIONS)]
+        total["crash_transitions_not_exercised_by_design"] = ["%s->%s" % (TAGS[a], TAGS[b]) for (a, b) in sorted(CRASH_TRANSITIONS)]
     cov = branch_coverage(alltr)
-    total["model_branches_covered"] = "%d/%d" % (len(cov["covered"]), len(cov["all"]))
-    total["model_branches_uncovered"] = sorted(cov["all"] - cov["covered"])
+    total["api_branches_covered"] = "%d/%d" % (len(cov["covered"]), len(cov["all"]))
+    total["api_branches_uncovered"] = sorted(cov["all"] - cov["covered"])
     distinct = len(set(shape(t) for (_, t, _, _, _) in alltr))
     samples = [{"self": sv, "round": rd, "trace": [e.brief() for e in t]} for (sv, t, rd, _, _) in alltr[:3]]
     longest = sorted(alltr, key=lambda x: -len(x[1]))[:2]
